@@ -120,6 +120,10 @@ def ex_case(ctx, case, test="L", num_sim=5, seed=1, inject=False, layout="C", sc
     qref = sum(1 for v in td if float(v) <= obs) / float(num_sim)
     if q != qref or not (0.0 <= q <= 1.0):
         ctx.violate("quantile != fraction of simulated statistics <= observed", rc, observed=q, expected=qref, tags=tags)
+    if ctx.evaluations % 97 == 0:
+        ctx.sample({"test": test, "layout": layout, "lambda_head": numpy.asarray(lam).ravel()[:6], "observed_counts_head": numpy.asarray(wobs).ravel()[:6],
+                    "n_obs": n_obs, "observed_statistic": obs, "reference_log_pmf_sum": ref, "test_distribution": [float(v) for v in td[:4]],
+                    "first_simulated_catalog_nonzero_bins": numpy.nonzero(sl.calls[0]["result"])[0][:8] if sl.calls and "result" in sl.calls[0] else None})
     nt = bool((numpy.asarray(wobs) >= 2).any() or has_zero or n_obs != round(float(numpy.sum(rates))))
     if nt:
         ctx.nt(digest((case["rates"], case["ev_cell"], case["ev_mag"], test, layout)))
